@@ -9,7 +9,10 @@ package main
 
 import (
 	"fmt"
+	"go/types"
 	"strings"
+
+	"golang.org/x/tools/go/ssa"
 )
 
 type sx struct {
@@ -248,4 +251,84 @@ func verifyTheory(P *Program, CS *Contracts, th *Theory) (c *Ctx, err error) {
 	o := c.oblige("vacuity", th.Name+".consistent", "true", "false", "the theory text (definitions and axioms) is not contradictory (unsat = every proof above is vacuous)", pos)
 	o.Expect = "consistent"
 	return c, nil
+}
+
+// verifyAxioms: contract-level axioms (axiom name <method>: expr) that carry a proof method are discharged
+// from the axioms declared before them. used: the axioms some verification condition of this run used.
+func verifyAxioms(P *Program, CS *Contracts, used map[string]bool) (c *Ctx, n int, err error) {
+	con := &Contract{Kind: "lemma", ID: "axioms:proved", Flags: map[string]bool{}}
+	c = newCtx(P, CS, nil, con)
+	defer func() {
+		if r := recover(); r != nil {
+			if u, ok := r.(unsupportedErr); ok {
+				err = fmt.Errorf("unsupported: %s", string(u))
+				return
+			}
+			panic(r)
+		}
+	}()
+	c.compSort["$alloc"] = "(Array Ref Bool)"
+	c.compSort["$clk"] = c.intS()
+	h := c.newBase()
+	c.entry = h
+	e := &Exec{c: c, con: con, env: map[ssa.Value]Val{}, params: map[string]Val{}, names: map[string]Val{}}
+	var pkg *types.Package
+	for _, p := range P.Prog.AllPackages() {
+		if p.Pkg.Path() == zapMod+"/zapcore" {
+			pkg = p.Pkg
+		}
+	}
+	for _, ax := range CS.Axioms {
+		c.axiomDone[ax.Name] = true // no automatic assertion: axioms are added below, in declaration order
+	}
+	c.decls = append(c.decls, "(declare-const ind!n Int)")
+	for _, ax := range CS.Axioms {
+		if !used[ax.Name] {
+			continue
+		}
+		sc := &Scope{e: e, c: c, cur: h, old: h, params: map[string]Val{}, names: map[string]Val{}, pkg: pkg, tracks: map[string]*trackInfo{}, where: "axiom " + ax.Name}
+		v := sc.rvalue(sc.eval(ax.C.E))
+		if ax.Proof != "" {
+			n++
+			x, perr := parseSx(v.T)
+			if perr != nil {
+				panic(unsupportedErr(fmt.Sprintf("axiom %s: %v", ax.Name, perr)))
+			}
+			var binders []*sx
+			body := x
+			if x.isList("forall") && len(x.list) == 3 {
+				binders, body = x.list[1].list, x.list[2]
+			}
+			pos := ax.C.Src
+			switch {
+			case ax.Proof == "direct":
+				c.oblige("theory", "axiom."+ax.Name, "true", v.T, "axiom "+ax.Name+" follows from the axioms declared before it", pos)
+			case strings.HasPrefix(ax.Proof, "natinduct "):
+				vn := "q!" + strings.TrimSpace(strings.TrimPrefix(ax.Proof, "natinduct "))
+				pred := func(t *sx) *sx {
+					var rest []*sx
+					found := false
+					for _, b := range binders {
+						if len(b.list) == 2 && b.list[0].atom == vn {
+							found = true
+							continue
+						}
+						rest = append(rest, b)
+					}
+					if !found {
+						panic(unsupportedErr(fmt.Sprintf("axiom %s: no bound variable %s", ax.Name, vn)))
+					}
+					return quantify(rest, substSx(body, vn, t))
+				}
+				succ, _ := parseSx("(+ ind!n 1)")
+				c.oblige("theory", "axiom."+ax.Name+".base", "true", pred(&sx{atom: "0"}).String(), "induction over the naturals, base case of axiom "+ax.Name, pos)
+				c.oblige("theory", "axiom."+ax.Name+".step", "true", fmt.Sprintf("(=> (and (>= ind!n 0) %s) %s)", pred(&sx{atom: "ind!n"}), pred(succ)), "induction, step case of axiom "+ax.Name, pos)
+				c.oblige("theory", "axiom."+ax.Name+".neg", "true", fmt.Sprintf("(=> (< ind!n 0) %s)", pred(&sx{atom: "ind!n"})), "axiom "+ax.Name+" below zero (must hold without induction)", pos)
+			default:
+				panic(unsupportedErr(fmt.Sprintf("axiom %s: unknown proof method %q", ax.Name, ax.Proof)))
+			}
+		}
+		c.decls = append(c.decls, fmt.Sprintf("(assert %s)", v.T))
+	}
+	return c, n, nil
 }
